@@ -70,6 +70,14 @@ Proof.
   destruct ((w1 <? c_min_w k) || (s1 >? c_max_w k)); subst r; exact R.
 Qed.
 
+Lemma impl_both_set_state k w s g :
+  state_after (set_decimal_config_impl k (Some w) (Some s) g) =
+  mkG (eff (c_disable k) (c_max_w k) w) (eff (c_disable k) (c_max_s k) s).
+Proof.
+  unfold set_decimal_config_impl. simpl from_env.
+  destruct (_ || _); [reflexivity|]. destruct (_ || _); reflexivity.
+Qed.
+
 (* the spec: an unset variable is its documented default *)
 Lemma spec_unset_is_default k es g :
   set_decimal_config_spec k None es g = set_decimal_config_spec k (Some (c_def_w k)) es g.
@@ -80,7 +88,7 @@ Proof. reflexivity. Qed.
 
 (* ------------------------------------------------------------------ run level *)
 Lemma run_config_cfgerror_iff f ew es g v :
-  fst (run_config f ew es g) = CfgError v <-> exists g', f ew es g = Rejected v g'.
+  fst (run_config f ew es g) = CfgRejected v <-> exists g', f ew es g = Rejected v g'.
 Proof.
   unfold run_config. destruct (f ew es g) as [g'|v' g']; simpl.
   - destruct (decimal_type_ok _ _); split; try discriminate; intros [? ?]; discriminate.
@@ -247,15 +255,16 @@ Proof.
   destruct (fits _ _); [|discriminate]. intros H. injection H as <- <-. split; [reflexivity|]. exists a, b. auto.
 Qed.
 
-Lemma binop_no_overflow_below_38 sub w s m1 e1 m2 e2 :
-  0 <= w < duckdb_max_width -> binop_case sub (CfgOk w s) m1 e1 m2 e2 <> OOverflow.
+Lemma binop_no_overflow sub w s m1 e1 m2 e2 :
+  0 <= w -> w <> duckdb_int64_width -> w <> duckdb_max_width -> binop_case sub (CfgOk w s) m1 e1 m2 e2 <> OOverflow.
 Proof.
-  intros Hw. unfold binop_case.
+  intros Hw H18 H38. unfold binop_case.
   destruct (load w s m1 e1) as [a|] eqn:L1; [|discriminate].
   destruct (load w s m2 e2) as [b|] eqn:L2; [|discriminate].
   apply load_some in L1, L2. destruct L1 as (_ & A), L2 as (_ & B).
   destruct (sum_fits_next_width w a b ltac:(lia) A B) as (S1 & S2).
-  assert (R : result_width w = w + 1) by (unfold result_width; lia).
+  assert (R : result_width w = w + 1).
+  { unfold result_width. rewrite (proj2 (Z.eqb_neq _ _) H18), (proj2 (Z.eqb_neq _ _) H38). reflexivity. }
   unfold fits. rewrite R. destruct sub; unfold dec_add, dec_sub.
   - rewrite (proj2 (Z.ltb_lt _ _) S2). discriminate.
   - rewrite (proj2 (Z.ltb_lt _ _) S1). discriminate.
@@ -284,4 +293,27 @@ Proof.
   rewrite forallb_forall in H. specialize (H g Hg).
   rewrite forallb_forall in H. specialize (H ew Hw).
   rewrite forallb_forall in H. exact (H es Hs).
+Qed.
+
+(* ------------------------------------------------------------------ literals *)
+Lemma binop_case_lit_plain f sub o m1 e1 m2 e2 :
+  (forall s m e, f s (Plain m e) = to_scale s m e) ->
+  binop_case_lit f sub o (Plain m1 e1) (Plain m2 e2) = binop_case sub o m1 e1 m2 e2.
+Proof.
+  intros H. unfold binop_case_lit, binop_case, binop_vals, load_lit, load. destruct o; try reflexivity.
+  rewrite !H. reflexivity.
+Qed.
+
+Lemma lit_impl_eq_spec_when_digits_remain s M x :
+  0 <= s -> - (x + s) <= ndigits M -> to_scale_lit_impl s (Sci M x) = to_scale_lit_spec s (Sci M x).
+Proof.
+  intros Hs Hk. unfold to_scale_lit_impl, to_scale_lit_spec, to_scale.
+  destruct (- (x + s) <=? 0) eqn:K0.
+  - apply Z.leb_le in K0. destruct (x <=? 0) eqn:X0.
+    + apply Z.leb_le in X0. rewrite (proj2 (Z.leb_le (- x) s)) by lia. f_equal. f_equal. lia.
+    + apply Z.leb_gt in X0. rewrite (proj2 (Z.leb_le 0 s)) by lia.
+      rewrite <- Z.mul_assoc, <- Z.pow_add_r by lia. f_equal. f_equal. lia.
+  - apply Z.leb_gt in K0. rewrite (proj2 (Z.leb_le _ _) Hk).
+    assert (x <= 0) by lia. rewrite (proj2 (Z.leb_le x 0)) by lia.
+    rewrite (proj2 (Z.leb_gt (- x) s)) by lia. f_equal. f_equal. lia.
 Qed.
